@@ -5,6 +5,7 @@ CONSTANTS
   PointMeta = TRUE
   Gs = {1,2}
   IdSet = {1, 2}
+  WithReads = TRUE
   Vals = {1, 2}
 INVARIANTS Linearizable Consistent
 CHECK_DEADLOCK FALSE
